@@ -491,14 +491,16 @@ Theorem besseli_coefficients : forall S,
   forall v x, 0 < x -> m_ok S (OBesselI v) x.
 Proof. intros S H1 H2 v x. apply besseli_ok; auto. Qed.
 
-(* Not proved (stated for the record):
-   logsmoothmax_partial — LogSmoothMax starts its two accumulators at -Inf and the first LogAdd of each is the Set
-     short cut; the real carrier has no infinities (coq/C02 states the VALUE over option R), so there is no statement
-     over R here: bit-exact replay, certificates and the hunt cover it; the short cuts themselves are
-     logadd_inf_is_set / logsub_neg_inf_is_set (every carrier).
+(* Round 6 theorems are in C01/PropsLSM.v (LogSmoothMax in two halves: the -Inf short cut on every carrier with the three
+   inf laws — the binary64 replay carrier has them — and the jet / value of the peeled program over the reals; LogAdd for
+   any receiver; carrier-generic frames) and C01/PropsGen.v (G6: the seven vector / matrix loops, G7: the predicates,
+   regenerated from the source on every run).
+
+   Not proved (stated for the record):
    dag_jets_are_derivatives_partial — for Abs, Min, Max, LogAdd nodes the program is proved to compute the jet of the
      named closed form (lift1 Rabs .., the selected operand, logadd_jet: dag_program_computes_xsem) but the statement
      that this jet is the derivative of the denoted function (off the kink / off ties) is only proved for the
-     let-free fragment over table operations, Logistic, Sigmoid, Sqrt.
+     let-free fragment over table operations, Logistic, Sigmoid, Sqrt.  The same holds for lse_step inside
+     logsmoothmax_program: its slots are the closed forms of lse_step_closed_form, not proved to be partial derivatives.
    LogBesselI coefficients: correspondence and certificates only.
    Log1pExp as a DAG node: its branch jets are log1pexp_program. *)
